@@ -107,7 +107,10 @@ def run_check(prop, tier, seed, keep=False):
     spec = scripts.PROPS[prop]
     gen_stats = []
     cases = []
+    only = os.environ.get('VERIF_ONLY_FAMILIES')      # debugging aid: restrict the run to some families
     for fam in spec['families']:
+        if only and fam not in only.split(','):
+            continue
         cs, st = families.generate(fam, tier, seed, os.path.join(work, 'gen-' + fam))
         st = dict(st, family=fam)
         cap = families.FAMILIES[fam][tier].get('cap')
